@@ -2,10 +2,12 @@ package swapsim
 
 import (
 	"bytes"
+	"encoding/json"
 	"fmt"
 	"strings"
 	"testing"
 
+	"github.com/elementsproject/peerswap/swap"
 	"pgregory.net/rapid"
 
 	"verifharness/sim"
@@ -101,6 +103,35 @@ func monitorC15(col *stats.Collector) func(h *Hist) {
 				if c > 1 {
 					h.stop = col.Violation(h.T, "C15/second-spend", "%s had %d spends of %s accepted\n%s", n.Name, c, op, h.dump())
 					return
+				}
+			}
+			// (4b) no further spend attempt of an output whose spend the node had already recorded: the first
+			// accepted spend was followed by a store write of that swap in the same process, so a restarted
+			// node knows about it (a crash between the broadcast and that write is the listed finding of C16)
+			type firstSpend struct{ trace, epoch int }
+			firstOK := map[string]firstSpend{}
+			for _, sp := range n.Spends {
+				op := fmt.Sprintf("%s:%d", sp.PrevTx, sp.PrevVout)
+				if f, ok := firstOK[op]; ok && sp.Epoch > f.epoch {
+					recorded := false
+					for _, w := range n.Writes {
+						if w.Epoch == f.epoch && w.TraceIdx > f.trace {
+							var rec swap.SwapStateMachine
+							if json.Unmarshal(w.JSON, &rec) == nil && rec.Data != nil && rec.Data.OpeningTxBroadcasted != nil && rec.Data.OpeningTxBroadcasted.TxId == sp.PrevTx {
+								recorded = true
+							}
+						}
+					}
+					if recorded {
+						h.stop = col.Violation(h.T, "C15/second-spend-attempt:after-recorded-spend:"+sp.Kind, "%s tried to spend %s again (%s, epoch %d) although its earlier spend was accepted in epoch %d and the swap was written to the store afterwards\n%s", n.Name, op, sp.Kind, sp.Epoch, f.epoch, h.dump())
+						return
+					}
+				}
+				if sp.TxID != "" && !sp.ReplyLost {
+					// accepted by the chain and reported to the node as a success
+					if _, ok := firstOK[op]; !ok {
+						firstOK[op] = firstSpend{sp.TraceIdx, sp.Epoch}
+					}
 				}
 			}
 			// (5) a re-sent request / agreement carries the same parameters
